@@ -1,3 +1,4 @@
+import SqlgrepModel.Lemmas.ParseLit
 import SqlgrepModel.Lemmas.LexPos
 import SqlgrepModel.Lemmas.LexNear
 import SqlgrepModel.Lemmas.LexNearPiece
@@ -97,7 +98,84 @@ theorem excerpt_empty_without_line (o : Oracles) (loc : Loc) (text : List Char) 
 theorem error_excerpt (o : Oracles) (text : List Char) (loc : Loc) (e : LexErr) (_ : tokenize o text = .error loc e) :
     ∃ s, extractNear o loc text = .text s := extract_near_total o loc text
 
+/-! ### a number that is out of range is an error
+
+`flushNumber` is the code after the tokenizer's number loop (`i64::from_str` on the collected digit run); the number loop
+only ever collects ASCII digits and dots, and `classify` starts a number only at a digit, so a run without a dot is
+exactly a non-empty digit string. -/
+
+/-- **a digit run is a token exactly when its value fits 64 bits; otherwise the tokenizer reports `intConvert`, located
+at the current position** — never a wrapped, saturated or truncated number -/
+theorem int_run_token_or_error (o : Oracles) (st : St) (w : List Char) (hne : w ≠ [])
+    (hd : ∀ c ∈ w, Lit.isDigit c.toNat = true) :
+    flushNumber o st w false =
+      (if Lit.digitsVal (w.map Char.toNat) < 2 ^ 63 then .run (st.add (.int (Lit.digitsVal (w.map Char.toNat))))
+       else .fail ⟨st.line, st.col⟩ .intConvert) := by
+  have hne' : w.map Char.toNat ≠ [] := by simpa using hne
+  have hall : (w.map Char.toNat).all Lit.isDigit = true := by
+    simp only [List.all_map, List.all_eq_true]; intro c hc; exact hd c hc
+  have hnd : ∀ d, w.map Char.toNat ≠ 45 :: d := by
+    intro d h
+    cases w with
+    | nil => exact hne rfl
+    | cons c cs =>
+      have := hd c (List.mem_cons_self)
+      simp only [List.map_cons, List.cons.injEq] at h
+      rw [h.1] at this; revert this; decide
+  have hnp : ∀ d, w.map Char.toNat ≠ 43 :: d := by
+    intro d h
+    cases w with
+    | nil => exact hne rfl
+    | cons c cs =>
+      have := hd c (List.mem_cons_self)
+      simp only [List.map_cons, List.cons.injEq] at h
+      rw [h.1] at this; revert this; decide
+  have hp : Lit.parseI64 (w.map Char.toNat) =
+      if Lit.inI64 (Lit.digitsVal (w.map Char.toNat) : Int) then some (Lit.digitsVal (w.map Char.toNat) : Int) else none := by
+    unfold Lit.parseI64
+    split
+    · rename_i d h; exact absurd h (hnd d)
+    · rename_i d h; exact absurd h (hnp d)
+    · simp [Lit.parseDigits, hall, List.isEmpty_iff, hne]
+  unfold flushNumber
+  simp only [Bool.false_eq_true, if_false, hp]
+  by_cases hlt : Lit.digitsVal (w.map Char.toNat) < 2 ^ 63
+  · have : Lit.inI64 (Lit.digitsVal (w.map Char.toNat) : Int) = true := by
+      rw [Lit.inI64_iff]; constructor <;> omega
+    simp [this, hlt]
+  · have : Lit.inI64 (Lit.digitsVal (w.map Char.toNat) : Int) = false := by
+      cases h : Lit.inI64 (Lit.digitsVal (w.map Char.toNat) : Int)
+      · rfl
+      · rw [Lit.inI64_iff] at h; omega
+    simp [this, hlt]
+
+/-- a number is out of range → error -/
+theorem int_out_of_range_is_error (o : Oracles) (st : St) (w : List Char) (hne : w ≠ [])
+    (hd : ∀ c ∈ w, Lit.isDigit c.toNat = true) (hbig : 2 ^ 63 ≤ Lit.digitsVal (w.map Char.toNat)) :
+    flushNumber o st w false = .fail ⟨st.line, st.col⟩ .intConvert := by
+  rw [int_run_token_or_error o st w hne hd, if_neg (by omega)]
+
+/-- a number with a fraction is a token or the error `floatConvert`, as `f64::from_str` decides — never a panic -/
+theorem float_run_token_or_error (o : Oracles) (st : St) (w : List Char) :
+    (∃ b, flushNumber o st w true = .run (st.add (.float b))) ∨
+    flushNumber o st w true = .fail ⟨st.line, st.col⟩ .floatConvert ∨ flushNumber o st w true = .missing w := by
+  unfold flushNumber
+  simp only [if_true]
+  cases o.fparse w with
+  | bits b => exact Or.inl ⟨b, rfl⟩
+  | err => simp
+  | missing => simp
+
 /-! ### non-vacuity and sharpness -/
+
+/-- the hypotheses of `int_out_of_range_is_error` are met by the smallest number that does not fit, and the largest that
+fits is a token -/
+example : (∀ c ∈ "9223372036854775808".toList, Lit.isDigit c.toNat = true) ∧
+    2 ^ 63 ≤ Lit.digitsVal ("9223372036854775808".toList.map Char.toNat) ∧
+    tokenize Tables.asciiOnly "x = 9223372036854775808".toList = .error ⟨0, 23⟩ .intConvert ∧
+    tokenize Tables.asciiOnly "9223372036854775807".toList = .ok [⟨⟨0, 0⟩, .int 9223372036854775807⟩, ⟨⟨0, 19⟩, .eof⟩] := by
+  decide
+
 
 /-- an error in the middle of a line: `1.2.3` fails at the second dot, column 3 of a line of length 5 -/
 example : tokenize Tables.asciiOnly "a\n1.2.3".toList = .error ⟨1, 3⟩ .alreadyHasDot := by decide
